@@ -6,12 +6,14 @@
 package pfcpiface
 
 import (
+	"bytes"
 	"encoding/json"
 	"fmt"
 	"math/rand"
 	"os"
 	"os/signal"
 	"runtime"
+	"runtime/pprof"
 	"sort"
 	"strconv"
 	"strings"
@@ -163,10 +165,14 @@ func vDumpOnSignal() {
 	})
 }
 
+// vCurRes: the result object of the test that is running in this child (one property per child process).
+var vCurRes *vResult
+
 func vNewResult(prop string) *vResult {
 	vDumpOnSignal()
-	return &vResult{Property: prop, Distinct: map[string]int{}, Events: map[string]int{},
+	vCurRes = &vResult{Property: prop, Distinct: map[string]int{}, Events: map[string]int{},
 		maxSamples: 6, maxDistinct: 200000, curCase: -1}
+	return vCurRes
 }
 
 func (r *vResult) eval(n int) {
@@ -447,4 +453,48 @@ func vLoadReplayPlans() []c01Plan {
 	}
 	walk(root)
 	return out
+}
+
+// vParkedHandler looks, in a dump of this process' goroutines, for a goroutine that is handling a PFCP message or tearing
+// an association down (HandlePFCPMsg / doShutdown in its stack) and is parked on a channel operation or a lock with
+// repository code as the innermost frame that is not runtime/sync - while no repository goroutine is inside a datapath RPC
+// (then handlers may simply be waiting for the harness-owned server). The same rule as the driver applies to the dump of a
+// child that hit the watchdog. Returns the frame and the goroutine's stack, or "" when there is no such goroutine.
+func vParkedHandler() (string, string) {
+	var buf bytes.Buffer
+	pprof.Lookup("goroutine").WriteTo(&buf, 2)
+	gs := strings.Split(buf.String(), "\n\n")
+	for _, g := range gs {
+		if strings.Contains(g, "upf-epc/pfcpiface") && strings.Contains(g, "google.golang.org/grpc.(*ClientConn).Invoke") {
+			return "", ""
+		}
+	}
+	for _, g := range gs {
+		lines := strings.Split(g, "\n")
+		head := lines[0]
+		if !(strings.Contains(head, "[chan send") || strings.Contains(head, "[chan receive") || strings.Contains(head, "[select") ||
+			strings.Contains(head, "[sync.Mutex.Lock") || strings.Contains(head, "[sync.RWMutex") || strings.Contains(head, "[semacquire")) {
+			continue
+		}
+		if !strings.Contains(g, "pfcpiface.(*PFCPConn).HandlePFCPMsg") && !strings.Contains(g, "pfcpiface.(*PFCPConn).doShutdown") {
+			continue
+		}
+		for i := 1; i+1 < len(lines); i += 2 {
+			fn, loc := strings.TrimSpace(lines[i]), strings.TrimSpace(lines[i+1])
+			if strings.HasPrefix(fn, "runtime.") || strings.HasPrefix(fn, "sync.") || strings.HasPrefix(fn, "internal/") || strings.HasPrefix(fn, "sync/atomic.") || strings.HasPrefix(fn, "time.") {
+				continue
+			}
+			if strings.Contains(fn, "upf-epc/pfcpiface.") && !strings.Contains(loc, "zz_verif_") && !strings.Contains(loc, "/verif/harness") {
+				if k := strings.LastIndex(fn, "("); k > 0 {
+					fn = fn[:k]
+				}
+				if k := strings.Index(fn, "upf-epc/"); k >= 0 {
+					fn = fn[k+len("upf-epc/"):]
+				}
+				return fn, g
+			}
+			break
+		}
+	}
+	return "", ""
 }
